@@ -367,10 +367,63 @@ func RefStructPermuted(t *TSpec, v Val, cfg Cfg, order func(n int, depth int) []
 					efs = append(efs, ef{idx, fopt, i})
 				}
 			}
+			// one piece per field occurrence: repeated-form fields contribute one piece per
+			// element / entry, which may be interleaved with other fields as long as their
+			// relative order is kept
+			type piece struct {
+				field int
+				b     []byte
+			}
+			var pieces []piece
+			for j, e := range efs {
+				ft, fv := u.Fields[e.i].Type, v.L[e.i]
+				inner, iv := ft.Under(), fv
+				for inner.Kind == KPtr && !iv.Nil {
+					iv = *iv.P
+					inner = inner.Elem.Under()
+				}
+				switch {
+				case !RefOmit(ft, fv) && inner.Kind == KSlice && RefSliceForm(inner, e.opt, cfg) == formProto:
+					for _, el := range iv.L {
+						if el.Nil && inner.Elem.Under().Kind == KPtr {
+							continue
+						}
+						body := enc(inner.Elem, "", el, depth+1)
+						pb := appendTag(nil, e.idx, WTLength)
+						pb = appendUvarint(pb, uint64(len(body)))
+						pieces = append(pieces, piece{j, append(pb, body...)})
+					}
+				case !RefOmit(ft, fv) && inner.Kind == KMap && e.opt == "proto":
+					for _, kv := range iv.M {
+						var eb []byte
+						eb = field(eb, 1, inner.Key, "", kv.K, depth+1)
+						eb = field(eb, 2, inner.Elem, "", kv.V, depth+1)
+						pb := appendTag(nil, e.idx, WTLength)
+						pb = appendUvarint(pb, uint64(len(eb)))
+						pieces = append(pieces, piece{j, append(pb, eb...)})
+					}
+				default:
+					if fb := field(nil, e.idx, ft, e.opt, fv, depth+1); len(fb) > 0 {
+						pieces = append(pieces, piece{j, fb})
+					}
+				}
+			}
+			perm := order(len(pieces), depth)
+			shuffled := make([]piece, len(pieces))
+			for k, j := range perm {
+				shuffled[k] = pieces[j]
+			}
+			// restore the relative order of pieces that belong to the same field
+			next := map[int]int{}
+			byField := map[int][]piece{}
+			for _, pc := range pieces {
+				byField[pc.field] = append(byField[pc.field], pc)
+			}
 			var b []byte
-			for _, j := range order(len(efs), depth) {
-				e := efs[j]
-				b = field(b, e.idx, u.Fields[e.i].Type, e.opt, v.L[e.i], depth+1)
+			for _, pc := range shuffled {
+				q := byField[pc.field][next[pc.field]]
+				next[pc.field]++
+				b = append(b, q.b...)
 			}
 			return b
 		case KPtr:
